@@ -375,7 +375,7 @@ def run(tier):
     fams = [("NamesFull", "FilesSmall", "MethodsSmall", "ContextsQuick")]
     if thorough:
         fams = [("NamesFull", "FilesFull", "MethodsAll", "ContextsQuick"),
-                ("NamesFull", "FilesSmall", "MethodsOne", "ContextsFull")]
+                ("NamesFull", "FilesThree", "MethodsOne", "ContextsFull")]
     # 1a. vacuity guard for the actions (small constants, -coverage)
     c0 = _cfg(os.path.join(gen, "References_cov_%s.cfg" % tier),
               _constants("NamesFull", "FilesTwo", "MethodsOne", "ContextsOne", False) + "SPECIFICATION Spec\n" + inv + "CHECK_DEADLOCK FALSE\n")
